@@ -131,6 +131,7 @@ def Scope.pop (s : Scope) (fn : String) : Scope :=
 def builtinSig (name : String) : Option FnSig :=
   match name with
   | "fmt.Sprintf" => some { params := [.string], ret := .string, variadic := true }
+  | "strings.ReplaceAll" => some { params := [.string, .string, .string], ret := .string }
   | "fmt.Print" | "fmt.Println" => some { params := [], ret := .void, variadic := true }
   | "println" => some { params := [], ret := .void, variadic := true }
   | "panic" => some { params := [.name "any"], ret := .void }
